@@ -296,31 +296,55 @@ Fixpoint cuts (l : list N) (ns : list nat) : list (list N) :=
 
 
 def hx(b):
-    return 'unhex "%s"' % bytes(b).hex()
+    return '(unhex "%s")' % bytes(b).hex()
 
 
 class Enc:
-    """byte strings as Coq terms; the archive is written relative to the constants
-    `old` / `data` when it literally is old + a prefix of data (pure abbreviation,
-    checked here byte for byte)"""
+    """byte strings as Coq terms over named constants (old, data, jb, other files): a
+    pure abbreviation - every rewriting is checked here byte for byte - that keeps the
+    generated file small (elaborating long string literals dominates coqc time)"""
 
-    def __init__(self, old, data):
-        self.old, self.data = old, data
+    def __init__(self, consts):
+        self.consts = list(consts)    # [(name, bytes)]
+        self.d = dict(consts)
+        self.extra = []               # definitions of literals named on the fly
 
     def __call__(self, b):
-        if b == self.old:
-            return 'old'
-        if len(self.old) and b.startswith(self.old) and self.data.startswith(b[len(self.old):]):
-            return '(old ++ firstn %d data)%%list' % (len(b) - len(self.old))
-        return hx(b)
+        b = bytes(b)
+        if b == b'':
+            return '[]'
+        for name, c in self.consts:
+            if c == b:
+                return name
+        for name, c in self.consts:
+            if len(b) < len(c) and c.startswith(b):
+                return '(firstn %d %s)' % (len(b), name)
+        old, data = self.d.get('old', b''), self.d.get('data', b'')
+        if b.startswith(old) and data.startswith(b[len(old):]):
+            rest = len(b) - len(old)
+            if not old:
+                return '(firstn %d data)' % rest
+            return '(old ++ firstn %d data)%%list' % rest if rest < len(data) else '(old ++ data)%list'
+        i = data.find(b) if len(b) >= 4 else -1
+        if i >= 0:
+            return '(firstn %d (skipn %d data))' % (len(b), i)
+        if len(b) < 8:
+            return hx(b)
+        if old and b.startswith(old) and len(b) > len(old):
+            return '(old ++ %s)%%list' % self(b[len(old):])
+        # a literal seen for the first time gets a name (defined once, before the checks)
+        name = 'w%d' % len(self.extra)
+        self.extra.append('Definition %s := %s.' % (name, hx(b)))
+        self.consts.append((name, b))
+        return name
 
 
-def fs_term(files, enc):
-    return '[' + '; '.join('(%s, %s)' % (hx(fn.encode()), enc(bytes.fromhex(c))) for fn, c in sorted(files.items())) + ']'
+def fs_term(files, enc, names):
+    return '[' + '; '.join('(%s, %s)' % (names[fn], enc(bytes.fromhex(c))) for fn, c in sorted(files.items())) + ']'
 
 
 def intr(k, d, w):
-    return '(Some (Intr %d %s (%s)))' % (k, 'true' if d else 'false', hx(w))
+    return '(F %d %s %s)' % (k, 'true' if d else 'false', w)
 
 
 def model_check_terms(cfg, res):
@@ -332,16 +356,46 @@ def model_check_terms(cfg, res):
     ev = res['ref_events']
     m = len(ev) - 1
     sizes = [e[2] for e in ev if e[0] == 'write' and e[1] == 'A']
-    enc = Enc(old, data)
-    defs = ['Definition A := %s.' % hx(A.encode()),
+    jb = bytes.fromhex(res_journal(res))
+    consts = [('old', old), ('data', data), ('jb', jb)]
+    names = {A: 'nA', J: 'nJ'}
+    defs = ['Definition nA := %s.' % hx(A.encode()), 'Definition nJ := %s.' % hx(J.encode()),
+            'Definition A := nA.',
             'Definition old := %s.' % hx(old),
             'Definition data := %s.' % hx(data),
-            'Definition chunks := cuts data [%s].' % '; '.join('%d%%nat' % n for n in sizes),
-            'Definition s0 : fs := %s.' % fs_term(before, Enc(b'', b''))]
+            'Definition jb := %s.' % hx(jb)]
+    others = sorted(set(fn for run in res['runs'] for fn in run['after']) | set(before))
+    for i, fn in enumerate(f for f in others if f not in (A, J)):
+        names[fn] = 'n%d' % i
+        defs.append('Definition n%d := %s.' % (i, hx(fn.encode())))
+        if fn in before and len(before[fn]) >= 8:
+            consts.append(('c%d' % i, bytes.fromhex(before[fn])))
+            defs.append('Definition c%d := %s.' % (i, hx(bytes.fromhex(before[fn]))))
+    consts = [(n, c) for n, c in consts if c]
+    enc = Enc(consts)
+
+    def fst(files):
+        return fs_term(files, enc, names)
+    rest = {fn: c for fn, c in before.items() if fn not in (A, J)}
+    defs += ['Definition chunks := cuts data [%s].' % '; '.join('%d%%nat' % n for n in sizes),
+             'Definition s0 : fs := %s.' % fst(before),
+             'Definition F k d w := Some (Intr k d w).',
+             'Definition opt (n : name) (c : option bytes) : fs := match c with Some b => [(n, b)] | None => [] end.',
+             '(* the expected directory: the untouched other files + archive + journal (order is irrelevant to fs_eqb) *)',
+             'Definition mk (a j : option bytes) : fs := (%s ++ opt nA a ++ opt nJ j)%%list.' % fst(rest),
+             'Definition chk f c k a j := result_eqb (write_record A chunks f c s0) k (mk a j).',
+             'Definition chkf f c k e := result_eqb (write_record A chunks f c s0) k e.']
+
+    def expect(kind, flt, crash, after):
+        if {fn: c for fn, c in after.items() if fn not in (A, J)} == rest:
+            a = 'Some %s' % enc(bytes.fromhex(after[A])) if A in after else 'None'
+            j = 'Some %s' % enc(bytes.fromhex(after[J])) if J in after else 'None'
+            return 'chk %s %s %d (%s) (%s)' % (flt, crash, kind, a, j)
+        return 'chkf %s %s %d %s' % (flt, crash, kind, fst(after))
     # structural agreement of the fault-free append: same primitives in the same order, chunks add up
     kinds = {'create': 0, 'open_append': 1, 'write': 2, 'close': 3, 'open_rw': 4, 'truncate': 5, 'unlink': 6}
     tags = {'A': 0, 'J': 1}
-    trace = '[' + '; '.join('(%d, %d)' % (kinds[e[0]], tags[e[1]]) for e in ev) + ']'
+    trace = '[' + '; '.join('(%d, %d)' % (kinds.get(e[0], 9), tags.get(e[1], 9)) for e in ev) + ']'
     checks = ['codes_eqb (append_trace A s0 chunks) %s' % trace]
     notes = [{'what': 'fault-free primitive sequence', 'events': ev}]
     if sum(sizes) != len(data):
@@ -352,20 +406,16 @@ def model_check_terms(cfg, res):
     for n in sizes:
         chunk.append(data[pos:pos + n])
         pos += n
-    parent = None
-    for run in res['runs']:
+
+    def run_term(run, parent):
         plan = run['plan']
         after = run['after']
         note = {'plan': plan, 'outcome': run['outcome']}
         flt = crash = 'None'
         kind = {'completed': 0, 'oserror': 1, 'crashed': 2}.get(run['outcome'])
         mode = plan['mode']
-        if not plan.get('crash2'):
-            parent = run
         if kind is None:
-            checks.append('false')
-            notes.append(note)
-            continue
+            return 'false', note
         if mode == 'crash':
             k = plan['k']
             e = ev[k]
@@ -376,7 +426,7 @@ def model_check_terms(cfg, res):
                     w = bytes.fromhex(after.get(J, ''))
             else:
                 w = b''
-            crash = intr(k, plan.get('done', False), w)
+            crash = intr(k, plan.get('done', False), enc(w))
         elif mode in ('fault', 'pyfault'):
             k = plan['k'] if mode == 'fault' else 4
             T = ev[k][1]
@@ -384,26 +434,35 @@ def model_check_terms(cfg, res):
             if T == 'A':
                 pre = old + b''.join(chunk[:max(0, min(k - 4, len(chunk)))])
             else:
-                pre = b'' if k <= 1 else bytes.fromhex(res_journal(res))
+                pre = b'' if k <= 1 else jb
             cur = bytes.fromhex(after.get(tname, ''))
             w = cur[len(pre):] if (plan.get('crash2') and cur.startswith(pre)) else b''
-            flt = intr(k, plan.get('done', False), w)
+            flt = intr(k, plan.get('done', False), enc(w))
             c2 = plan.get('crash2')
             if c2:
                 pev = parent.get('events') or []
                 r = next((i for i in range(parent.get('fired_at') or 0, len(pev)) if pev[i][0] == 'open_rw'), None)
                 if r is None or kind != 2:
-                    checks.append('false')
                     note['why'] = 'second-level kill did not fire / no rollback seen'
-                    notes.append(note)
-                    continue
+                    return 'false', note
                 if c2['j'] < r:
-                    crash = intr(k + 1, False, b'')
+                    crash = intr(k + 1, False, '[]')
                 else:
-                    crash = intr(k + 1 + (c2['j'] - r), c2.get('done', False), b'')
-        checks.append('result_eqb (write_record A chunks %s %s s0) %d %s' % (flt, crash, kind, fs_term(after, enc)))
+                    crash = intr(k + 1 + (c2['j'] - r), c2.get('done', False), '[]')
+        return expect(kind, flt, crash, after), note
+
+    parent = None
+    for run in res['runs']:
+        if not run['plan'].get('crash2'):
+            parent = run
+        try:
+            term, note = run_term(run, parent)
+        except Exception as e:      # the primitive sequence is not the one the model describes
+            term, note = 'false', {'plan': run['plan'], 'outcome': run['outcome'], 'why': 'cannot map onto the model: %r' % (e,)}
+        checks.append(term)
         notes.append(note)
-    return defs, checks, notes
+    i = next(i for i, d in enumerate(defs) if d.startswith('Definition chunks'))
+    return defs[:i] + enc.extra + defs[i:], checks, notes
 
 
 def res_journal(res):
@@ -574,7 +633,8 @@ def correspondence(ctx):
 def search(ctx, disagreements):
     """larger scope on the implementation only (no Coq in the loop): every prefix of every write,
     real buffer sizes, longer archives"""
-    cfgs = configs(True)
+    done = [repr(c) for c in configs(ctx.thorough)]
+    cfgs = [c for c in configs(True) if repr(c) not in done]      # the scope beyond what correspondence() already ran
     out = []
     for cfg, res in zip(cfgs, _impl(cfgs)):
         out += violations_of(cfg, res)
